@@ -15,6 +15,7 @@
 import PrologVerif.Model.Compile
 import PrologVerif.Model.Unify
 import PrologVerif.Model.Promise
+import PrologVerif.Model.Order
 import PrologVerif.Generated.Bootstrap
 namespace PrologVerif.VM
 open PrologVerif PrologVerif.Promise
@@ -106,15 +107,6 @@ def inner : Nat := 100000
 def res (env : Env) (t : Term) : Term := (resolve inner env t).getD t
 def app (env : Env) (t : Term) : Term := (applyAll inner env t).getD t
 
-/-- `error(Formal, Context)` with the context the error constructors read from `varContext`,
-    copied by `NewException` (an unbound context becomes a fresh variable) -/
-def mkErr (formal : Term) (env : Env) (m : MS) : Pr × MS :=
-  match res env (.var varContext) with
-  | .var _ =>
-    (errP (.exc (.app "error" (.cons formal (.cons (.var m.user.nextVar) .nil)))),
-      { m with user := { m.user with nextVar := m.user.nextVar + 1 } })
-  | ctx => (errP (.exc (.app "error" (.cons formal (.cons ctx .nil)))), m)
-
 def freshVars (n : Nat) (m : MS) : List Nat × MS :=
   ((List.range n).map (· + m.user.nextVar), { m with user := { m.user with nextVar := m.user.nextVar + n } })
 
@@ -149,6 +141,13 @@ def renamedCopy (t : Term) (env : Env) (m : MS) : Term × MS :=
   let vs := termVars t' []
   let (fs, m) := freshVars vs.length m
   (renameWith (vs.zip fs) t', m)
+
+/-- `error(Formal, Context)` with the context the error constructors read from `varContext`,
+    copied by `NewException` = `renamedCopy(term, nil, env)`: bindings applied, every variable (of the
+    culprit, and an unbound context) replaced by a fresh one -/
+def mkErr (formal : Term) (env : Env) (m : MS) : Pr × MS :=
+  let (c, m) := renamedCopy (.app "error" (.cons formal (.cons (.var varContext) .nil))) env m
+  (errP (.exc c), m)
 
 def buildCtor (c : Ctor) (args : List Term) : Term :=
   match c with
@@ -391,6 +390,33 @@ mutual
             | none => some none
           else some (some (appendLists xs ys zs k env m))
         | _ => some (some (appendLists xs ys zs k env m))
+      | "compare", [order, x, y] =>
+        -- builtin.go `Compare`: check `order`, then unify it with the outcome of Term.Compare
+        let go := fun (_ : Unit) =>
+          match unify inner false env order (Order.orderAtom (Order.compare (app env x) (app env y))) with
+          | some (env', .ok) => some (applyCont n k env' m)
+          | some _ => some (some (failP, m))
+          | none => some none
+        match res env order with
+        | .var _ => go ()
+        | .atom o =>
+          if o = "<" ∨ o = "=" ∨ o = ">" then go ()
+          else some (some (mkErr (domainErr "order" (.atom o)) env m))
+        | other => some (some (mkErr (typeErr "atom" other) env m))
+      | "atom_length", [a, l] =>
+        match res env a with
+        | .var _ => some (some (mkErr instErr env m))
+        | .atom s =>
+          let go := fun (_ : Unit) =>
+            match unify inner false env l (.int s.length) with
+            | some (env', .ok) => some (applyCont n k env' m)
+            | some _ => some (some (failP, m))
+            | none => some none
+          match res env l with
+          | .var _ => go ()
+          | .int i => if i < 0 then some (some (mkErr (domainErr "not_less_than_zero" (.int i)) env m)) else go ()
+          | other => some (some (mkErr (typeErr "integer" other) env m))
+        | other => some (some (mkErr (typeErr "atom" other) env m))
       | "assertz", [t] => some (some (assertClause false t k env m n))
       | "asserta", [t] => some (some (assertClause true t k env m n))
       | _, _ => none
